@@ -116,6 +116,8 @@ def sched_specs(draw, quiet=True, adaptive=False, force_last=False,
             'procs': procs, 'steps': nsteps, 'calls': calls}
     if any(p.get('cond_state') for p in procs):
         spec['toggle_ts'] = tval(draw(ks))
+    if precision is None and unit == 0.1:
+        spec['decimal'] = True      # times are inexact float sums
     return spec
 
 
